@@ -15,6 +15,7 @@ from __future__ import annotations
 
 import numpy as np
 
+from .. import harness as H
 from ..harness import close
 from ..recipes import ast as A
 from ..recipes import build as B
@@ -123,6 +124,18 @@ def operand_matrix():
         out.append((f"vexpr @ {oname}", "S", ["matmul", _xe, o], mm))
         out.append((f"{oname} @ vexpr", "S", ["matmul", o, _xe], mm))
         out.append((f"vexpr.dot({oname})", "S", ["dot", _xe, o], mm))
+    # coefficient data of tiny uniform scale (exact power of two; observations are scaled back before the comparison)
+    t_ = 2.0 ** -30
+    tiny3 = ["arr", [1.5 * t_, -2.0 * t_, 0.25 * t_]]
+    Qt = [[v * t_ for v in row] for row in Q3]
+    for nm, kind_, node_ in [
+        ("TINY:vecvar @ array", "S", ["matmul", _x, tiny3]), ("TINY:array @ vecvar", "S", ["matmul", tiny3, _x]),
+        ("TINY:vecvar.dot(list)", "S", ["dot", _x, ["list", tiny3[1]]]), ("TINY:array @ vexpr", "S", ["matmul", tiny3, _xe]),
+        ("TINY:Q3x3 @ vec3", "V", ["mv", Qt, _x]), ("TINY:Q3x3 @ vexpr3", "V", ["mv", Qt, _xe]),
+        ("TINY:vecvar * array", "V", ["vbin", "*", _x, tiny3]), ("TINY:quadratic form", "S", ["qf", _x, Qt]),
+        ("TINY:x.dot(Q @ x)", "S", ["dotQ", _x, Qt, _x]),
+    ]:
+        out.append((nm, kind_, node_, False))
     for nm, Qm, vec, mm in [
         ("Q3x3 @ vec3", Q3, _x, False),
         ("Q2x3 @ vec3", Q3[:2], _x, False),
@@ -212,7 +225,12 @@ def view_recipes():
                           (["sub", _Q, 1, 3, 0, 2], "Q[1:3,0:2]", (2, 2)), (["T", ["sub", _Q, 0, 2, 1, 3]], "Q[0:2,1:3].T", (2, 2)),
                           (["T", ["T", _A]], "A.T.T", (2, 3)), (["sub", ["T", _A], 0, 3, 1, 2], "A.T[0:3,1:2]", (3, 1)),
                           (["T", ["T", _Q]], "Q.T.T", (3, 3)), (["T", _Q], "Q.T", (3, 3)), (["T", ["T", ["T", _Q]]], "Q.T.T.T", (3, 3)),
-                          (["T", ["T", ["sub", _Q, 0, 2, 1, 3]]], "Q[0:2,1:3].T.T", (2, 2))]:
+                          (["T", ["T", ["sub", _Q, 0, 2, 1, 3]]], "Q[0:2,1:3].T.T", (2, 2)),
+                          # blocks of a symmetric matrix: principal and off-diagonal, and their transposes
+                          (["sub", _S, 0, 2, 1, 3], "S[0:2,1:3]", (2, 2)), (["T", ["sub", _S, 0, 2, 1, 3]], "S[0:2,1:3].T", (2, 2)),
+                          (["T", ["sub", _S, 1, 3, 0, 2]], "S[1:3,0:2].T", (2, 2)), (["sub", _S, 0, 2, 0, 2], "S[0:2,0:2]", (2, 2)),
+                          (["T", ["sub", _S, 0, 2, 0, 2]], "S[0:2,0:2].T", (2, 2)), (["T", ["sub", _S, 0, 1, 1, 3]], "S[0:1,1:3].T", (2, 1)),
+                          (["T", ["T", ["sub", _S, 0, 2, 1, 3]]], "S[0:2,1:3].T.T", (2, 2))]:
         out.append((f"matrix {nm}", "M", M))
         for i in range(r):
             out.append((f"row {nm}", "V", ["row", M, i]))
@@ -301,6 +319,7 @@ def points_for(rng, D, names, k=2):
 
 def run_case(rec, rng, cell, kind, node, decls, expect_mismatch=None, check_names=False):
     D = R.Decls(decls)
+    H.SCALE_INV[0] = 2.0 ** 30 if str(cell).startswith("op:TINY") or str(cell).startswith("TINY") else 1.0
     rec.case({"d": decls, "n": node}, nontrivial=A.n_ops(node) >= 1)
     show = {"decls": A.render_decls(decls), "expr": A.render(node)}
     names = D.all_var_names()
